@@ -2,8 +2,12 @@
 //
 // Op grammar (tokens separated by one space; strings hex-encoded with core.Hex, "-" = empty):
 //
-//	tree <m|d> NODE           install a configuration (m: through martianhttp.Modifier as cmd/proxy does,
-//	                          d: the parse result wired to the handlers directly)
+//	tree <m|d|e> NODE         install a configuration (m: through martianhttp.Modifier as cmd/proxy does,
+//	                          d: the parse result wired to the handlers directly,
+//	                          e: end to end — POSTed to http://martian.proxy/configure through a real proxy
+//	                          wired as cmd/proxy; from then on t/q/r/qbad/rbad/cget are real HTTP requests
+//	                          through that proxy, see e2e.go)
+//	cget                      GET the configure endpoint (an API request passing through the tree)
 //	  NODE  := L <scope> LEAF | G <scope> <agg> <n> NODE*n | F <scope> COND <hasElse> NODE [NODE]
 //	  LEAF  := status <n> | header <name> <value> | method <m> | url <s> <h> <p> <q> | qs <k> <v> |
 //	           failure <msg> | ping <s> <h> <p> <q> | nop | fail
@@ -541,6 +545,7 @@ type impl struct {
 	// at the root, or a fifo.Group above them), by id
 	guarded map[int][]*watch
 	above   map[int]string
+	w       *e2eWorld // wiring e
 }
 
 func newImpl() *impl {
@@ -604,6 +609,21 @@ func (i *impl) overlaps() string {
 
 func install1(wiring string, n *node) *impl {
 	b, _ := json.Marshal(n.json())
+	if wiring == "e" {
+		w, err := newE2E()
+		if err != nil {
+			panic(err)
+		}
+		code, _, _, err := w.apiCall("POST", "/configure", b)
+		if err != nil || code != 200 {
+			w.close()
+			if err != nil {
+				core.Count("e2e:configure-transport-error")
+			}
+			return nil
+		}
+		return &impl{w: w}
+	}
 	if wiring == "d" {
 		r, err := parse.FromJSON(b)
 		if err != nil {
@@ -631,6 +651,13 @@ func install1(wiring string, n *node) *impl {
 }
 
 func (i *impl) traffic(m *msg) (reqErr, resErr bool) {
+	if i.w != nil {
+		a, b, err := i.w.exchange(m)
+		if err != nil {
+			panic("e2e exchange: " + err.Error())
+		}
+		return a, b
+	}
 	req := &http.Request{Method: m.method, URL: &url.URL{Scheme: m.scheme, Host: m.host, Path: m.path, RawQuery: m.qry, Fragment: m.frag},
 		Proto: "HTTP/1.1", ProtoMajor: 1, ProtoMinor: 1, Header: toHeader(m.reqH), Host: m.host, Body: http.NoBody}
 	ctx, remove, err := martian.TestContext(req, nil, nil)
@@ -656,7 +683,17 @@ func (i *impl) traffic(m *msg) (reqErr, resErr bool) {
 // documented JSON document.
 func (i *impl) query() (msgs []string, problem string) {
 	rw := httptest.NewRecorder()
-	i.vh.ServeHTTP(rw, httptest.NewRequest("GET", "http://martian.proxy/verify", nil))
+	if i.w != nil {
+		code, hdr, body, err := i.w.apiCall("GET", "/verify", nil)
+		if err != nil {
+			return nil, "transport: " + err.Error()
+		}
+		rw.Code = code
+		rw.Header().Set("Content-Type", hdr.Get("Content-Type"))
+		rw.Body = bytes.NewBuffer(body)
+	} else {
+		i.vh.ServeHTTP(rw, httptest.NewRequest("GET", "http://martian.proxy/verify", nil))
+	}
 	if rw.Code != 200 {
 		return nil, fmt.Sprintf("status %d", rw.Code)
 	}
@@ -686,6 +723,13 @@ func (i *impl) query() (msgs []string, problem string) {
 }
 
 func (i *impl) reset() int {
+	if i.w != nil {
+		code, _, _, err := i.w.apiCall("POST", "/verify/reset", nil)
+		if err != nil {
+			return -1
+		}
+		return code
+	}
 	rw := httptest.NewRecorder()
 	i.rh.ServeHTTP(rw, httptest.NewRequest("POST", "http://martian.proxy/verify/reset", nil))
 	return rw.Code
@@ -964,6 +1008,9 @@ type oracle struct {
 	api      map[int]bool // ids of API exchanges
 	epoch    map[int]int  // id -> number of resets before the exchange
 	resets   int
+	// collapse: the exchange id is not visible in the messages (end-to-end tier: no fragment on the
+	// wire); compare per verifier kind
+	collapse bool
 }
 
 func newOracle(n *node) (*oracle, bool) {
@@ -1034,6 +1081,9 @@ func (o *oracle) expected() map[key]int {
 				return
 			}
 			for _, id := range n.unmet {
+				if o.collapse {
+					id = -1
+				}
 				exp[key{id, tagOf(n.n)}]++
 			}
 		})
@@ -1112,7 +1162,12 @@ func (P) NewExec() core.Exec {
 	o, _ := newOracle(&node{typ: "L", scope: "d", leaf: "nop"})
 	return &ex{im: newImpl(), or: o}
 }
-func (e *ex) Close() {}
+func (e *ex) Close() {
+	if e.im != nil && e.im.w != nil {
+		e.im.w.close()
+		e.im.w = nil
+	}
+}
 
 func hexAll(msgs []string) string {
 	out := []string{"q", strconv.Itoa(len(msgs))}
@@ -1141,7 +1196,7 @@ func (e *ex) Do(op string) core.Result {
 	f := strings.Split(op, " ")
 	switch f[0] {
 	case "tree":
-		if len(f) < 3 || (f[1] != "m" && f[1] != "d") {
+		if len(f) < 3 || (f[1] != "m" && f[1] != "d" && f[1] != "e") {
 			return core.Result{Impl: "bad-op"}
 		}
 		n, rest, ok := parseNode(f[2:], 0)
@@ -1157,7 +1212,12 @@ func (e *ex) Do(op string) core.Result {
 		if im == nil {
 			return core.Result{Impl: "tree err"}
 		}
+		e.Close()
 		e.im, e.or = im, or
+		e.or.collapse = im.w != nil
+		if im.w != nil {
+			core.Count("e2e:trees")
+		}
 		return core.Result{Impl: "tree ok"}
 	case "t":
 		m, ok := parseMsg(f[1:])
@@ -1166,6 +1226,17 @@ func (e *ex) Do(op string) core.Result {
 		}
 		if _, dup := e.or.epoch[m.id]; dup {
 			return core.Result{Impl: "bad-op"} // ids must be unique within a case
+		}
+		if e.im.w != nil {
+			if !wireable(m) {
+				return core.Result{Impl: "bad-op"} // not expressible on the wire (see e2e.go)
+			}
+			a, b := e.im.traffic(m)
+			e.or.traffic(m)
+			core.Count("e2e:exchanges")
+			wire := *m
+			wire.frag = "" // a fragment is never sent
+			return core.Result{Impl: "t " + b01(a) + " " + b01(b), ModelOp: wire.op()}
 		}
 		a, b := e.im.traffic(m)
 		e.or.traffic(m)
@@ -1197,9 +1268,20 @@ func (e *ex) Do(op string) core.Result {
 			return core.Result{Impl: "bad-op"}
 		}
 		rw := httptest.NewRecorder()
-		if f[0] == "qbad" {
+		switch {
+		case e.im.w != nil:
+			meth, path := "POST", "/verify"
+			if f[0] == "rbad" {
+				meth, path = "GET", "/verify/reset"
+			}
+			code, _, _, err := e.im.w.apiCall(meth, path, nil)
+			if err != nil {
+				code = -1
+			}
+			rw.Code = code
+		case f[0] == "qbad":
 			e.im.vh.ServeHTTP(rw, httptest.NewRequest("POST", "http://martian.proxy/verify", nil))
-		} else {
+		default:
 			e.im.rh.ServeHTTP(rw, httptest.NewRequest("GET", "http://martian.proxy/verify/reset", nil))
 		}
 		io.Copy(io.Discard, rw.Body)
@@ -1208,7 +1290,30 @@ func (e *ex) Do(op string) core.Result {
 			res.Fail, res.Sig = "after a wrong-method call: "+r.Fail, r.Sig
 		}
 		return res
+	case "cget":
+		// an API request that is neither a query nor a reset: it passes through the tree and changes nothing
+		if len(f) != 1 {
+			return core.Result{Impl: "bad-op"}
+		}
+		res := core.Result{Impl: "cget 200", SkipModel: true}
+		if e.im.w != nil {
+			code, _, _, err := e.im.w.apiCall("GET", "/configure", nil)
+			if err != nil {
+				code = -1
+			}
+			res.Impl = "cget " + strconv.Itoa(code)
+			if code != 200 {
+				res.Fail, res.Sig = "GET http://martian.proxy/configure through the proxy answered "+strconv.Itoa(code), "c13:handler"
+			}
+		}
+		if _, r := e.checkedQuery(); r.Fail != "" {
+			res.Fail, res.Sig = "after an API request passed through the tree: "+r.Fail, r.Sig
+		}
+		return res
 	case "conc":
+		if e.im.w != nil {
+			return core.Result{Impl: "bad-op"}
+		}
 		if len(f) != 3 || (f[2] != "q" && f[2] != "r") {
 			return core.Result{Impl: "bad-op"}
 		}
